@@ -81,7 +81,12 @@ def check_case(ctx, case):
 
     def opened(wd, oid):
         return gen.rot(wd, rots[oid] % len(wd)) if oid < len(rots) else wd
-    v = EntSpec(0, V, CRec(0, opened(P["vecs"][(vdown, vup)], 0), [], []), False)
+    vword = opened(P["vecs"][(vdown, vup)], 0)
+    if case.get("vcase") == "lower":
+        vword = vword.lower()
+    elif case.get("vcase") == "half":
+        vword = vword[:len(vword) // 2].lower() + vword[len(vword) // 2:]      # one end soft-masked, the other not
+    v = EntSpec(0, V, CRec(0, vword, [], []), False)
     lower = set(case.get("lower", []))
     # `same_id`: the supplied records all carry one identifier (unnamed records, revisions of one accession):
     # which modules clash is a matter of overhangs and objects, never of names
@@ -89,7 +94,8 @@ def check_case(ctx, case):
     ents = [EntSpec(i, M, CRec(77 if same else i, opened(P["mods"][(s, e)].lower() if i in lower else P["mods"][(s, e)], i),
                                [], []), False) for (s, e, i) in mods]
     op = ("ASM", 1, 1, v, ents)
-    reply, prod, _ = impl.run_asm(op)
+    # `share`: modules holding the same plasmid are wrappers around one record object (a file loaded once)
+    reply, prod, _ = impl.run_asm(op, entities=impl.build_entities(v, ents, share=True) if case.get("share") else None)
     f = reply.split("\t")
     exp = spec(vdown, vup, mods)
     if f[0] == "err":
@@ -217,7 +223,21 @@ def run(ctx):
         same = rng.random() < 0.25
         rot = [rng.randrange(64) for _ in range(len(mods) + 2)] if rng.random() < 0.6 else []
         ctx.guard(check_case, {"vector": list(vec), "mods": mods, "asm_corr": (not same) and rng.random() < 0.2,
-                               "lower": lower, "same_id": same, "rot": rot})
+                               "lower": lower, "same_id": same, "rot": rot,
+                               "vcase": rng.choice([None, None, "lower", "half"])})
+    # one plasmid file loaded once and wrapped several times: distinct module objects around one record object
+    for _ in range(ctx.budget(120, 3000)):
+        vec = rng.choice(VECTORS)
+        k = rng.randint(1, 3)
+        ovs = [vec[0]] + [rng.choice(OVS) for _ in range(k - 1)] + [vec[1]]
+        mods = [[ovs[i], ovs[i + 1], i + 1] for i in range(k)]
+        j = rng.randrange(k)
+        mods.append([mods[j][0], mods[j][1], k + 1])
+        if rng.random() < 0.4:
+            mods.append([rng.choice(OVS), rng.choice(OVS), k + 2])
+        rng.shuffle(mods)
+        ctx.guard(check_case, {"vector": list(vec), "mods": mods, "same_id": True, "share": True,
+                               "vcase": rng.choice([None, "half"])})
     # reverse-complementary / equal start overhangs spelt in different cases, in every argument order
     for _ in range(ctx.budget(150, 3000)):
         vec = rng.choice([v for v in VECTORS if v[0] != v[1]])
